@@ -12,6 +12,7 @@ CONSTANTS
   BlSlots = {}
   MaxTick = 1
 INVARIANT Inv
+PROPERTY ActivationRule ReplacedSafe DialRule BlacklistLasts
 CONSTRAINT HW
 POSTCONDITION TraceAccepted
 CHECK_DEADLOCK FALSE
